@@ -67,7 +67,7 @@ class C19(Check):
                    'the string "discover"; a request truncated by the receive size is judged by what arrived']
     PROBES = ('c19.description-truncated', 'c19.responder-disabled', 'c19.non-request', 'c19.invalid-utf8',
               'c19.non-object-json', 'net.udp-lost', 'net.udp-duplicated', 'net.udp-reordered', 'net.udp-truncated',
-              'c19.near-budget', 'c19.server-mode', 'c19.server-responder-started', 'fault.port-held-by-somebody-else',
+              'c19.near-budget', 'c19.server-mode', 'c19.server-responder-started', 'c19.requests-during-shutdown', 'fault.port-held-by-somebody-else',
               'fault.bind-address-in-use')
 
     def gen_case(self, rng, tier):
@@ -100,6 +100,7 @@ class C19(Check):
             ports = rng.sample([10767, 2055, 4001, 65535], rng.choice([1, 2, 2, 3]))
             shape['mode'] = 'server'
             shape['broadcast'] = True      # Server.run starts the responder with its default
+            shape['shutdown_phase'] = rng.choice([0.05, 0.17, 0.29, 0.41, 0.53])   # against the 0.5 s poll of the tcp servers
             shape['ifaces'] = [f'tcp://{q}' for q in ports]
             shape['occupied'] = {str(q): rng.choice([None, None, 0.2, 1.0, 3.0, 6.0])
                                  for q in ports[1:] if rng.random() < 0.6}
@@ -179,8 +180,24 @@ class C19(Check):
                 c.close()
             except OSError as e:
                 ctx['idn'][q] = repr(e)
+        # discovery requests keep coming while the node shuts down: whatever it still answers must be true
+        stop = []
+
+        def prober():
+            k = 0
+            while not stop and k < 80:
+                k += 1
+                sock.inject(b'{"SECoP": "discover"}', ('10.0.0.77', 47000 + k))
+                time.sleep(0.03)
+        pt = threading.Thread(target=prober, name='prober')
+        pt.start()
+        time.sleep(shape.get('shutdown_phase', 0.1))
+        sim.count('c19.requests-during-shutdown')
         srv.shutdown()
         th.join(30)
+        stop.append(1)
+        pt.join()
+        ctx['listen_log'] = list(getattr(net, 'listen_log', ()))
         ctx['ended'] = not th.is_alive()
         ctx['task_exc'] = next((repr(t.exc) for t in udp_tasks if t.exc is not None), None)
 
@@ -311,6 +328,17 @@ class C19(Check):
             if site:
                 res.append(Violation('C19.bad-answer', site, f'{len(data)} bytes to {addr}: {data[:120]!r}'))
                 break
+            if shape.get('mode') == 'server' and ctx.get('listen_log') is not None:
+                # ... and listens on at the moment the datagram leaves (also while the node goes down)
+                state = None
+                for q_, _tt, port, what in ctx['listen_log']:
+                    if port == obj['port'] and q_ < _q:
+                        state = what
+                if state != 'open':
+                    res.append(Violation('C19.bad-answer', 'port-closed-already',
+                                         f'datagram to {addr} at t={_t:.3f} announces port {obj["port"]}, which the node '
+                                         f'had closed before (listening sockets: {[(round(t2, 3), p2, w2) for _s2, t2, p2, w2 in ctx["listen_log"]]})'))
+                    break
             if obj['description'] != desc:
                 bump('c19.description-truncated')
         # ---- enabled unless the identity alone does not fit
@@ -365,7 +393,7 @@ class C19(Check):
                 except UnicodeDecodeError:
                     bump('c19.invalid-utf8')
         expected += [('10.0.0.99', 49999)] * len(ports)
-        answers = [a for _t, _q, _d, a in sock.sent if a[0] != '255.255.255.255']
+        answers = [a for _t, _q, _d, a in sock.sent if a[0] not in ('255.255.255.255', '10.0.0.77')]   # (not the shutdown prober)
         if sorted(answers) != sorted(expected):
             missing = [a for a in set(expected) if expected.count(a) > answers.count(a)]
             extra = [a for a in set(answers) if answers.count(a) > expected.count(a)]
